@@ -22,6 +22,16 @@ func runTunnelTCP(r *tunRun) {
 		return
 	}
 	r.tun = tun
+	// frames of other connections multiplexed on the stream: they must not surface
+	e.S.Spawn("tcp-foreign", func() {
+		for i := e.Choose("wl.tcpforeign", 6); i > 0; i-- {
+			e.S.SleepFor(e.PickDur("wl.tcpfgap", 0, c.R/4, c.R))
+			if cur := gw.Cur(); cur != nil {
+				e.Fault("foreign-channel")
+				gw.send(mkTunnelReq(cur.Channel+1+uint8(e.Choose("wl.tcpfch", 200)), 0, idCEMI(0x29, r.newID())))
+			}
+		}
+	})
 	r.startWorkload()
 	r.finish()
 	checkTunnel(r)
